@@ -694,7 +694,7 @@ def check_C07(tier, seed, replay=None):
     res = run_pigeon_each(groups, [], pigeon)
     obs, accepted = [], []
     for g, (rc, err) in zip(groups, res):
-        lr = rc != 0 and "left recursion" in err.lower() or (rc != 0 and "leadership" in err)
+        lr = rc != 0 and ("recurs" in err.lower() or "leadership" in err)
         if "panic" in err and "goroutine" in err:
             raise P.Inconclusive("pigeon panicked on a C07 grammar: " + err[-400:])
         obs.append(dict(gi=g.gi, accepted=rc == 0, lrerror=bool(lr), other=rc != 0 and not lr, rc=rc))
@@ -1473,6 +1473,14 @@ def check_C13(tier, seed, replay=None):
         if False else c13_validate(lines)
     nviol = 0
     rd = os.path.join(P.VERIF, "replays", "C13")
+    drift = [dd for dd in div if dd["df"] == "not-reachable"]
+    if drift:
+        # the statement fixes neither the exit statuses nor the wording of the diagnostics: an observation that is ALLOWED
+        # but not reachable in Cli.tla's phase model is model drift, not a violation
+        j0 = jobs[drift[0]["k"] - 1]
+        run.notes.append("model drift: %d observations are allowed outcomes but not terminal states of Cli.tla (first: flags=%s status=%s class=%s)" % (
+            len(drift), " ".join(j0[3]), res[drift[0]["k"] - 1][0]["rc"], res[drift[0]["k"] - 1][0]["diag"]))
+    div = [dd for dd in div if dd["df"] != "not-reachable"]
     for dd in div:
         nviol += 1
         if nviol <= 25:
